@@ -125,7 +125,7 @@ def run_scenario(sc, base, fast=True, mode='each', real_passes=None, on_test=Non
             try:
                 tm = testing.TestManager(stats, script, 10, cfg['save_temps'], names, cfg['N'], cfg['no_cache'], True,
                                          cfg['silent'], cfg['die'], False, cfg['maximp'], cfg['nogiveup'], cfg['also'],
-                                         sc.get('start_with'), cfg['skipn'], sc.get('stopping_threshold', 1.0))
+                                         (None if sc.get('start_with_key') is None else 'ScriptPass::%d' % sc['start_with_key']), cfg['skipn'], sc.get('stopping_threshold', 1.0))
             except Exception as e:
                 o.ctor_exc = e
                 o.out = [50]
@@ -149,7 +149,10 @@ def run_scenario(sc, base, fast=True, mode='each', real_passes=None, on_test=Non
 
             orig_pr = tm.process_result
 
+            o.accepted_before = []
+
             def process_result(env):
+                o.accepted_before.append(joint())
                 orig_pr(env)
                 o.accepted.append(joint())
                 if len(o.accepted) > sc.get('max_accepts', 120):
@@ -188,7 +191,7 @@ def run_scenario(sc, base, fast=True, mode='each', real_passes=None, on_test=Non
                     d = joint()
                     leaked = sorted(os.listdir(tmpd))
                     o.passes.append(dict(pass_=repr(p), code=code, exc=exc, worked=w1 - w0, failed=f1 - f0,
-                                         executed=e1 - e0, bug=b, extra=x, disk=d, acc=o.accepted[a0:], leaked=leaked,
+                                         executed=e1 - e0, bug=b, extra=x, disk=d, acc=o.accepted[a0:], acc_before=o.accepted_before[a0:], leaked=leaked,
                                          futures=len(getattr(tm, 'futures', []) or []),
                                          folders=len(getattr(tm, 'temporary_folders', {}) or {})))
                     out += [code, w1 - w0, f1 - f0, e1 - e0, b, x] + enc_disk(d) + [len(o.accepted[a0:])]
@@ -276,9 +279,10 @@ def coq_scenario(sc, perm, mode='each'):
         ps = mk_passes(specs)
         return '[' + '; '.join(coq_pass(p) for p in ps) + ']' if ps else '(@nil spass)'
 
+    start = 'None' if sc.get('start_with_key') is None else f'(Some {sc["start_with_key"]}%N)'
     if mode == 'each':
         first, main, last = '(@nil spass)', plist(sc['passes']), '(@nil spass)'
     else:
         grp = sc['group']
         first, main, last = plist(grp.get('first', [])), plist(grp.get('main', [])), plist(grp.get('last', []))
-    return (f'(mksc {rc} {coq_rules(rules)} {first} {main} {last} {disk} {sch} {sc.get("bug0", 0)} {sc.get("extra0", 0)})')
+    return (f'(mksc {rc} {coq_rules(rules)} {first} {main} {last} {disk} {sch} {sc.get("bug0", 0)} {sc.get("extra0", 0)} {start})')
